@@ -9,6 +9,9 @@ use std::sync::atomic::{AtomicBool, AtomicU64, Ordering};
 use std::sync::{Arc, Mutex};
 use std::task::{Context, Poll, Wake, Waker};
 
+/// reads past EOF tolerated before a loop is declared non-terminating
+pub const EOF_READ_LIMIT: u64 = 1000;
+
 #[derive(Clone, Debug, PartialEq, Eq)]
 pub enum Step {
     /// deliver at most this many bytes on the next call
@@ -124,6 +127,15 @@ impl Scripted {
         let left = self.data.len() - l.pos;
         if left == 0 {
             l.reads_after_eof += 1;
+            // escape hatch for read loops that ignore end-of-stream: after EOF_READ_LIMIT zero-length deliveries the source
+            // starts failing, after ten times that it panics; the monitors then report the loop (reads_after_eof > limit)
+            if l.reads_after_eof > 10 * EOF_READ_LIMIT {
+                drop(l);
+                panic!("verif: the source was read more than {} times after end-of-stream", 10 * EOF_READ_LIMIT);
+            }
+            if l.reads_after_eof > EOF_READ_LIMIT {
+                return Next::Fail(ErrorKind::Other);
+            }
             return Next::Deliver(0);
         }
         // consume script steps that do not apply to this flavour
